@@ -1,6 +1,7 @@
 package main
 
 import (
+	"hash/fnv"
 	"fmt"
 	"go/types"
 	"sort"
@@ -162,10 +163,23 @@ func (s *Sorts) StrLit(v string) string {
 	if c, ok := s.strLits[v]; ok {
 		return c
 	}
-	c := fmt.Sprint(len(s.strLits) + 1)
+	// the code of a literal is a function of its text (not of the order literals are met in), so that queries - and
+	// with them the proof cache - are the same on every run; distinct literals must get distinct codes
+	c := fmt.Sprint(stableCode(v))
+	for o, oc := range s.strLits {
+		if oc == c {
+			panic(fmt.Sprintf("string literal code collision: %q and %q", o, v))
+		}
+	}
 	s.strLits[v] = c
 	s.strOrder = append(s.strOrder, v)
 	return c
+}
+
+func stableCode(v string) uint64 {
+	h := fnv.New64a()
+	h.Write([]byte(v))
+	return 1 + h.Sum64()%999999999989
 }
 
 // StrLitTable lists the literal pool (for readable reports).
@@ -194,7 +208,12 @@ func (s *Sorts) Tag(t types.Type) int {
 	if v, ok := s.tags[k]; ok {
 		return v
 	}
-	v := len(s.tags) + 1
+	v := int(1 + stableCode(k)%999983)
+	for o, ov := range s.tags {
+		if ov == v {
+			panic("interface tag collision: " + o + " and " + k)
+		}
+	}
 	s.tags[k] = v
 	s.tagTypes = append(s.tagTypes, t)
 	return v
@@ -421,9 +440,7 @@ func (s *Sorts) Preamble(text string) string {
 		state[n] = 2
 		b.WriteString(nd.decl())
 	}
-	for _, v := range s.strOrder {
-		fmt.Fprintf(&b, "; str %s = %q\n", s.strLits[v], v)
-	}
+	// (the literal pool is not printed here: it grows as functions are translated, and the query text must not depend on that)
 	var names []string
 	for n := range needed {
 		names = append(names, n)
